@@ -5,11 +5,37 @@ sys.path.insert(0, os.path.dirname(os.path.dirname(os.path.abspath(__file__))))
 ALL = ["C%02d" % i for i in range(1, 21)]
 
 # property -> (technique, level text, level note, design ref)
+SCRIPT_NOTE = ("Trusted: Coq kernel, extraction (ExtrOcamlBasic), OCaml driver, Go harness with the scripted port (mirrored event for event by coq/Vedirect/Port.v). "
+               "bufio.Reader, fmt, strconv, encoding/hex, time are modelled, not verified; the hand-written driver model is tied to the code by the "
+               "correspondence run of every check (all observables of every generated case compared), which is sampled, not exhaustive. ")
+
 CLAIMED = {
+    "C01": ("Coq theorems on the frame/line layer (soundness of response parsing and of the per-try decision) + model/code correspondence on generated scripts + extracted judge C01_call_ok on the implementation's observations",
+            "Proved for all inputs: whatever line the driver accepts is a valid response of the expected type with correct check byte (C01_line_sound), a value is extracted only from a valid type-7 frame with the requested address and flag 0 and equals the rest of its payload (C01_get_value_sound), foreign addresses and non-zero flags never yield a value, the check byte detects every single-byte change. The executable driver model (port, bufio, retry loop) is compared with the real driver on every generated script, and the extracted predicate C01_call_ok (a returned value implies a valid matching frame inside the received bytes) is evaluated on every implementation observation.",
+            SCRIPT_NOTE + "Partial: the lift of the line-level theorems through the bufio/port model to the byte stream is exercised by the judge, not yet a theorem.",
+            "DESIGN.md 4/C01"),
+    "C02": ("Coq theorems (little-endian, two's-complement, NUL stripping, hex, response completeness) + correspondence + expectation judge on generated device values",
+            "Proved for all values: le_uint/le_int invert the wire encoding for widths 1,2,4,8 over the full range (bit 63 included), other widths are an error, strip_nul removes exactly the trailing NULs, every valid response (any hex case) is accepted with exactly its payload. Driver-level round trip is checked on exhaustive 1-byte (quick) / 2-byte (thorough) values, boundary and random 4/8-byte values, strings up to 64 bytes, device ids and call sequences.",
+            SCRIPT_NOTE + "Partial: aliasing of returned slices is exercised by the harness only.",
+            "DESIGN.md 4/C02"),
     "C03": ("Coq theorem over the frame model (all nibbles, all addresses, all payloads) + exhaustive model/code correspondence on all 7x65536 frames",
-            "Theorems C03_wellformed, C03_wellformed_any_payload, C03_get_payload, C03_no_payload are proved in Coq for every command nibble and every address/payload (induction, no enumeration). The model tx_frame is tied to the code by comparing, on every run, all 720 898 frames the real driver writes through every public entry point with the extracted model (the domain is finite, the tie is exact) and judging each observed frame with the independent grammar.",
-            "Trusted: Coq kernel, extraction (ExtrOcamlBasic), OCaml driver, Go harness. Go's fmt verbs are modelled, not verified; write-fault histories are exercised by the scripted-port checks (C06).",
+            "Theorems C03_wellformed, C03_wellformed_any_payload, C03_get_payload, C03_no_payload are proved in Coq for every command nibble and every address/payload (induction, no enumeration). The model tx_frame is tied to the code by comparing, on every run, all 720 898 frames the real driver writes through every public entry point with the extracted model (the domain is finite, the tie is exact) and judging each observed frame with the independent grammar; frames written under write/read/flush faults and retries are judged on the scripted-port corpus.",
+            "Trusted: Coq kernel, extraction (ExtrOcamlBasic), OCaml driver, Go harness. Go's fmt verbs are modelled, not verified.",
             "DESIGN.md 4/C03"),
+    "C04": ("Coq theorems on the retry loop (at most eight writes, frames written, value returned at once) + abstract line machine (Resync.v) evaluated against the implementation + correspondence",
+            "Proved for all states, scripts and fault schedules: a register access performs at most eight Write calls, each the Get frame of the address; the first attempt consuming a valid matching response ends the access with its value. The abstract line machine (bytes and barriers; chunking, buffer and read bookkeeping erased) gives the expected result and frame count for every fault-free script; implementation and concrete model are compared with it on all generated reaction sequences and idle/busy histories.",
+            SCRIPT_NOTE + "Partial: refinement of the concrete model to the abstract machine is checked per case, not yet proved.",
+            "DESIGN.md 4/C04"),
+    "C05": ("Coq theorems (flag -> typed error, loop ends at once, one Write per exchange) + correspondence + expectation judge",
+            "Proved: a Get response for the requested address with flag 1, 2 or 4 (any trailing payload) is classified as ErrUnknownId / ErrorNotSupported / ErrorParameterError, the retry loop returns it in the state reached after that single exchange, and an exchange performs exactly one Write. Checked on the implementation for all accessors, boundary and random addresses, 0..8 trailing bytes, async prefixes and every flag byte.",
+            SCRIPT_NOTE, "DESIGN.md 4/C05"),
+    "C06": ("Coq theorems (no call panics for any state/script/fault schedule; at most eight writes; one write per exchange) + correspondence with a fault injected at every I/O index + read budget/watchdog",
+            "Proved for every logger configuration, driver state, device script and fault schedule: no driver call panics; response parsing is total; at most eight Write calls per register access. The implementation is run with a write fault at every write index, read error/timeout/empty read at every byte position, every prefix of every valid answer, every response nibble with short payloads, random streams; reads after end of data are bounded (1 per attempt, 100 in no-progress mode) and a read budget plus a watchdog turn a hang into a reported violation.",
+            SCRIPT_NOTE + "Partial: termination of the modelled loops (no OutOfFuel) is exercised, not yet proved; blocking of a real port is runtime behaviour.",
+            "DESIGN.md 4/C06"),
+    "C18": ("Coq theorem: simulation between any two logger configurations for every call and history + implementation run under all four configurations + I/O log replay + file logger on real files",
+            "Proved: for any two logger configurations and states agreeing on reader and port, every call (and every history) returns the same result and leaves the same reader/port state; without an I/O logger no line is emitted. Every generated case is run on the real driver under all four configurations and the observations must be identical; the I/O lines (unquoted) must equal the model's (tx = frames written, rx = bytes consumed), and each typed call completed in one exchange is replayed through a lookup port. The file logger is run on real files (pre-existing content, lines longer than the 4096-byte buffer).",
+            SCRIPT_NOTE + "Partial: debug-log text is not modelled.", "DESIGN.md 4/C18"),
 }
 
 PENDING_REASON = "check not built yet in this session (work in progress; see DESIGN.md section 10)"
